@@ -28,6 +28,7 @@ import (
 	"github.com/nyaruka/goflow/assets/static"
 	"github.com/nyaruka/goflow/contactql"
 	"github.com/nyaruka/goflow/envs"
+	"github.com/nyaruka/goflow/excellent/types"
 	"github.com/nyaruka/goflow/flows"
 	"github.com/nyaruka/goflow/flows/engine"
 	"github.com/nyaruka/goflow/flows/modifiers"
@@ -620,6 +621,17 @@ func c09RunWorker(p *c09Plan, sa flows.SessionAssets, env envs.Environment, w in
 				}
 				// (warnings too: a value another session marked deprecated shows here)
 				add(label+"/"+tpl, val+"|"+es+"|"+strings.Join(warnings, ";"))
+			}
+			// the evaluator's other entry point (the one routers use for operands and case arguments), also with
+			// the templates an editor leaves behind for a blank optional argument
+			for ti, tpl := range append([]string{"", "  ", "@contact.name", "@(format_datetime(now(), \"YYYY\")) and @contact.name after it", "Hello @(upper(contact.name)) how are you @(now()) today?"}, battery[:12]...) {
+				yield(7)
+				xv, _, err := session.Engine().Evaluator().TemplateValue(session.MergedEnvironment(), ctx, tpl)
+				es := ""
+				if err != nil {
+					es = err.Error()
+				}
+				add(fmt.Sprintf("%s/value%d/%s", label, ti, tpl), types.Format(session.MergedEnvironment(), xv)+"|"+es)
 			}
 		case "query":
 			contact, err := flows.ReadContact(sa, cj, assets.IgnoreMissing)
